@@ -33,6 +33,8 @@ var syntheticRecords = []string{
 	`<164>1 2022-08-15T12:14:59.855+02:00 errors appServ/bar.com 123 main.log - [JCmd] - short warning two`,
 	`<164>1 2022-08-15T12:14:59.855+02:00 errors appServ/bar.com 123 main.log - [JCmd] - short warning three`,
 	`<164>1 2022-08-15T12:14:59.855+02:00 errors appServ/bar.com 123 main.log - [JCmd] - short warning four`,
+	// every field starts and ends with "abc" (boundary-only extraction patterns such as 'abc*' or '*abc' match)
+	`<14>1 2020-09-17T16:51:47.867Z abc.example.abc abc.app/abc.vhost.abc abc9abc abc.log.abc - abc message abc`,
 	// non-ASCII text, long enough to be truncated by the access.log rule
 	`<164>1 2022-08-15T11:17:08.001+02:00 basic-2 appServ/bar.com 1240 access.log [@1] POST "/dätä/quéry", status=200 params={"ключ":"значение значение значение значение значение значение значение значение значение значение значение значение значение значение значение значение значение"}`,
 }
